@@ -318,8 +318,8 @@ def main():
     # the pass models the chain theorems are stated over, on THIS property's inputs
     cm = harness(hb, "c05-chainmodel", n=n(150, 2500), seed=seed, tier=tier, work=WORK)
     nd = drv([r[0] for r in cm])
-    cm2 = [r if m != "nondet" else ["-", r[1], r[2], r[0], ""] for r, m in zip(cm, nd)]
-    c.cov["chainmodel_nondet"] = sum(1 for m in nd if m == "nondet")
+    cm2 = [r if m not in ("nondet", "shared") else ["-", r[1], r[2], r[0], ""] for r, m in zip(cm, nd)]
+    c.cov["chainmodel_not_claimed"] = sum(1 for m in nd if m in ("nondet", "shared"))
     S.process("c05-chainmodel", cm2, nontrivial=lambda r: r[1].startswith("ok"))
     S.process("c05-chains", harness(hb, "c05-chains", n=n(1000, 12000), seed=seed, tier=tier, work=WORK),
               nontrivial=lambda r: r[1].startswith(("true", "false")))
